@@ -88,6 +88,7 @@ func Run(cfg hx.Config) error {
 	h.sectionHistory()
 	h.sectionInterleave()
 	h.sectionHistOps()
+	h.sectionRhelFull()
 	h.sectionKnown()
 	return nil
 }
